@@ -18,7 +18,7 @@ TOL = 1e-10
 def plan(tier):
     n = 320 if tier == 'quick' else 6000
     return dict(n_cases=n, shards=16, min_nontrivial=n // 3,
-                min_tags={'conn:SSycte': n // 12, 'conn:SSxcte': n // 12, 'conn:BFycte': n // 12, 'conn:BFxcte': n // 12, 'conn:SB': n // 12,
+                min_tags={'conn:blade2d': n // 24, 'conn:t2d': n // 24, 'conn:SSycte': n // 16, 'conn:SSxcte': n // 12, 'conn:BFycte': n // 12, 'conn:BFxcte': n // 12, 'conn:SB': n // 12,
                           'order:p1_after_p2': n // 8, 'pos:interior': n // 8, 'clause:kt_kr': n // 8},
                 watchdog_s=1800 if tier == 'quick' else 10000,
                 rule='pairs of panels of different transverse size, series orders, laminates and edge flags but equal interface length, joined by '
@@ -92,7 +92,114 @@ def conn_oracle(p1, p2, cn, kt, kr, size, dsb=None):
     return K, S, idx, (n1, n2)
 
 
+def case_blade2d(rng, tier):
+    """the skin-flange connection a BladeStiff2D builds itself (fkCss + fkCsf + fkCff with the bay's and the flange's own
+    edge flags): stiffener k0 minus its base and flange panels' own k0 = Hessian of the BFycte mismatch energy between the
+    bay skin series at y = ys and the flange series at y = 0"""
+    from compmech.panel import Panel
+    import compmech.panel.connections as connections
+    d = gen.bay_desc(rng, mmax=5, nstiff=(1, 1), kinds=('blade2d',), ncuts=int(rng.integers(1, 3)),
+                     fl=gen.flags(rng, style=str(rng.choice(['ss', 'clamped', 'mixed', 'free', 'binary', 'real']))))
+    c = Case({'kind': 'blade2d', 'bay': d})
+    c.tag('conn:blade2d', 'flags:' + d['flags']['_style'], 'base' if 'bstack' in d['stiffeners'][0] else 'nobase')
+    c.nontrivial = True
+    try:
+        bay = gen.build_bay(d)
+        size = bay.get_size()
+        bay.calc_k0(silent=True)
+        st = bay.bladestiff2ds[0]
+        ns = 3 * bay.m * bay.n
+        # the bay asks its stiffeners for unfinalized (upper-triangle) pieces; the finalized contribution is requested here
+        st.calc_k0(size=size, row0=ns, col0=ns, silent=True, finalize=True)
+        Ks = st.k0.toarray()
+        Kp = np.zeros((size, size)); Sp = np.zeros((size, size))
+        if st.base is not None:
+            kb = st.base.calc_k0(size=size, row0=0, col0=0, silent=True).toarray(); Kp += kb; Sp += np.abs(kb)
+        kf = st.flange.calc_k0(size=size, row0=ns, col0=ns, silent=True).toarray(); Kp += kf; Sp += np.abs(kf)
+        kt, kr = connections.calc_kt_kr(st.base if st.base is not None else st.panel1, st.flange, 'ycte')
+    except Exception as e:
+        return c.reject('%s building the stiffened bay: %s' % (type(e).__name__, str(e)[:100]))
+    c.hit('BladeStiff2D.calc_k0')
+    skin = Panel(a=bay.a, b=bay.b, m=bay.m, n=bay.n, r=bay.r, stack=list(d['stack']), plyt=d['plyt'], laminaprop=tuple(d['laminaprop']))
+    gen.apply_flags(skin, d['flags'])
+    skin.calc_k0(silent=True)
+    skin.row_start, skin.row_end = 0, ns
+    fl = st.flange
+    fl.row_start, fl.row_end = ns, ns + 3 * fl.m * fl.n
+    cn = {'func': 'BFycte', 'ycte1': float(st.ys), 'ycte2': 0.0}
+    Ko, S, idxs, _ = conn_oracle(skin, fl, cn, kt, kr, size)
+    S = S + 1e-5 * Sp        # subtraction of the panels' own k0: an absolute round-off of ~eps*|k0| per entry (1e-5 * 1e-10)
+    ratio, ij = entrywise_excess(Ks - Kp, Ko, S, TOL)
+    c.judge('stiffener k0 minus its panels\' k0 equals the Hessian of the skin-flange mismatch energy', ratio * TOL, TOL,
+            data={'entry': ij, 'code': float((Ks - Kp)[ij]), 'oracle': float(Ko[ij])})
+    return c
+
+
+def case_t2d(rng, tier):
+    """the two connections a TStiff2D builds itself: skin-base face to face over the strip ys +- bb/2 (penalty capped at 1e7,
+    thickness offset dpb) and base-flange along the base centre line"""
+    from compmech.panel import Panel
+    import compmech.panel.connections as connections
+    d = gen.bay_desc(rng, mmax=5, nstiff=(1, 1), kinds=('t2d',), ncuts=int(rng.integers(1, 3)),
+                     fl=gen.flags(rng, style=str(rng.choice(['ss', 'clamped', 'mixed', 'free', 'binary', 'real']))))
+    c = Case({'kind': 't2d', 'bay': d})
+    c.tag('conn:t2d', 'flags:' + d['flags']['_style'])
+    c.nontrivial = True
+    try:
+        bay = gen.build_bay(d)
+        size = bay.get_size()
+        bay.calc_k0(silent=True)
+        st = bay.tstiff2ds[0]
+        ns = 3 * bay.m * bay.n
+        st.calc_k0(size=size, row0=ns, col0=ns, silent=True, finalize=True)
+        Ks = st.k0.toarray()
+        nb = st.base.get_size()
+        kb = st.base.calc_k0(size=size, row0=ns, col0=ns, silent=True).toarray()
+        kf = st.flange.calc_k0(size=size, row0=ns + nb, col0=ns + nb, silent=True).toarray()
+        ktpb, _ = connections.calc_kt_kr(st.panel1, st.base, 'bot-top')
+        ktpb = min(1.e7, ktpb)
+        ktbf, krbf = connections.calc_kt_kr(st.base, st.flange, 'ycte')
+    except Exception as e:
+        return c.reject('%s building the stiffened bay: %s' % (type(e).__name__, str(e)[:100]))
+    c.hit('TStiff2D.calc_k0')
+    skin = Panel(a=bay.a, b=bay.b, m=bay.m, n=bay.n, r=bay.r, stack=list(d['stack']), plyt=d['plyt'], laminaprop=tuple(d['laminaprop']))
+    gen.apply_flags(skin, d['flags'])
+    skin.calc_k0(silent=True)
+    base, fl = st.base, st.flange
+    # face-to-face part: skin point (x, y1 + eta) against base point (x, eta)
+    ng = max(bay.m, bay.n, base.m, base.n, 4) + 3
+    g, w = np.polynomial.legendre.leggauss(ng)
+    X, E = np.meshgrid((g + 1) * bay.a / 2, (g + 1) * base.b / 2, indexing='ij')
+    W = np.outer(w * bay.a / 2, w * base.b / 2).ravel()
+    y1 = st.ys - base.b / 2.
+    U1 = energy.disp_basis(skin, X.ravel(), y1 + E.ravel())
+    U2 = energy.disp_basis(base, X.ravel(), E.ravel())
+    u1, v1, w1, px1, py1 = U1
+    u2, v2, w2, px2, py2 = U2
+    J = lambda a1, a2: np.concatenate([a1, a2], axis=1)
+    Jt = np.array([J(u1 - st.dpb * px1, -u2), J(v1 - st.dpb * py1, -v2), J(w1, -w2)])
+    Kl, Sl = energy.quad_form(Jt, ktpb * np.eye(3), W)
+    Ko = np.zeros((size, size)); S = np.zeros((size, size))
+    idx = np.concatenate([np.arange(0, ns), np.arange(ns, ns + nb)])
+    Ko[np.ix_(idx, idx)] += Kl; S[np.ix_(idx, idx)] += Sl
+    # base-flange line
+    base.row_start, base.row_end = ns, ns + nb
+    fl.row_start, fl.row_end = ns + nb, ns + nb + fl.get_size()
+    cn = {'func': 'BFycte', 'ycte1': (st.eta_conn_base + 1) / 2. * base.b, 'ycte2': (st.eta_conn_flange + 1) / 2. * fl.b}
+    K2, S2, _, _ = conn_oracle(base, fl, cn, ktbf, krbf, size)
+    Ko += K2; S += S2
+    S = S + 1e-5 * (np.abs(kb) + np.abs(kf))       # round-off of the subtraction, ~eps*|k0| per entry
+    # the strip integrals come from the sub-interval tables: round-off grows with b / strip width (see gen.subinterval_amplification)
+    tol = TOL * max(1.0, bay.b / base.b) * 10
+    ratio, ij = entrywise_excess(Ks - kb - kf, Ko, S, tol)
+    c.judge('T stiffener k0 minus its panels\' k0 equals the Hessian of the skin-base and base-flange mismatch energies', ratio * tol, tol,
+            data={'entry': ij, 'code': float((Ks - kb - kf)[ij]), 'oracle': float(Ko[ij])})
+    return c
+
+
 def run_case(rng, tier, idx):
+    if idx % 8 == 7:
+        return case_blade2d(rng, tier) if (idx // 8) % 2 == 0 else case_t2d(rng, tier)
     from compmech.panel.assembly import PanelAssembly
     import compmech.panel.connections as connections
     kind = gen.CONN_KINDS[idx % 5] if rng.random() < 0.8 else str(rng.choice(gen.CONN_KINDS))
